@@ -570,4 +570,6 @@ SELFTESTS = [
     (rule_ofstream_typestate, ["c11_ofs_bad.cc"], ["c11_ofs_good.cc"], "outfile"),
     (rule_basic_epilogue, ["c11_basic_bad.c"], ["c11_basic_good.c"], "return#"),
     (rule_cout_state_census, ["c11_ref_bad.cc"], ["c11_ref_good.cc"], "os_.clear"),
+    (rule_cout_state_census, ["c11_ref_bad.cc"], ["c11_ref_good.cc"], "stream-on-borrowed-buffer"),
+    (rule_cout_state_census, ["c11_ref_bad.cc"], ["c11_ref_good.cc"], "insert-streambuf"),
 ]
